@@ -17,6 +17,12 @@ pub struct Cut {
     pub as_of_ts: Option<(u16, i8)>,
     pub no_sketch: bool,
     pub top_k: usize,
+    /// request-level uri filter (document index) / scope filter, as any caller may combine them
+    /// with a cut-off
+    #[serde(default)]
+    pub uri_filter: Option<u16>,
+    #[serde(default)]
+    pub scope_filter: Option<u8>,
 }
 
 #[derive(Debug, Clone, Serialize, Deserialize)]
@@ -50,6 +56,13 @@ pub fn check(c: &Case) -> CheckResult {
             let qtext = c10::query_text(&ast, &cut.deco);
             let mut base = corpus::request(&qtext, 400);
             base.no_sketch = cut.no_sketch;
+            if let Some(u) = cut.uri_filter {
+                let i = crate::util::pick_index(u, c.corpus.docs.len());
+                base.uri = Some(corpus::doc_uri(i, &c.corpus.docs[i]));
+            }
+            if let Some(s) = cut.scope_filter {
+                base.scope = Some(corpus::SCOPES[s as usize % corpus::SCOPES.len()].to_string());
+            }
             let unfiltered = match mem.search(base.clone()) {
                 Ok(r) => r,
                 Err(_) => continue,
@@ -116,12 +129,14 @@ fn cut() -> impl Strategy<Value = Cut> {
         prop::option::weighted(0.5, (any::<u16>(), -2i8..3)),
         any::<bool>(),
         prop_oneof![1usize..6, 6usize..60],
+        prop::option::weighted(0.12, any::<u16>()),
+        prop::option::weighted(0.3, 0u8..3),
     )
-        .prop_map(|(q, deco, as_of_frame, as_of_ts, no_sketch, top_k)| Cut { q, deco, as_of_frame, as_of_ts, no_sketch, top_k })
+        .prop_map(|(q, deco, as_of_frame, as_of_ts, no_sketch, top_k, uri_filter, scope_filter)| Cut { q, deco, as_of_frame, as_of_ts, no_sketch, top_k, uri_filter, scope_filter })
 }
 
 pub fn build(ctx: &Ctx) -> Vec<Box<dyn Arm>> {
-    ctx.rule("C10 corpora (explicit, equal and negative timestamps) with 8..12 cut-off searches each: query = planted word / corpus word / random expression (incl. date ranges), as_of_frame = generated fraction of the frame count, as_of_ts = timestamp of a generated frame -2..+2, both or one, sketch pre-filter on/off, top_k 1..60, on the live handle and after reopen; oracle: every hit has frame_id <= as_of_frame and timestamp <= as_of_ts, and (metamorphic) is among the frames the same search returns without the filter at top_k=400; non-trivial = the cut-off excludes at least one frame the unfiltered search returns");
+    ctx.rule("C10 corpora (explicit, equal and negative timestamps) with 8..12 cut-off searches each: query = planted word / corpus word / random expression (incl. date ranges), as_of_frame = generated fraction of the frame count, as_of_ts = timestamp of a generated frame -2..+2, both or one, sketch pre-filter on/off, request-level uri / scope filters on some, top_k 1..60, on the live handle and after reopen; oracle: every hit has frame_id <= as_of_frame and timestamp <= as_of_ts, and (metamorphic) is among the frames the same search returns without the filter at top_k=400; non-trivial = the cut-off excludes at least one frame the unfiltered search returns");
     let t = ctx.tier;
     vec![arm_with(
         "cutoffs",
